@@ -68,6 +68,34 @@ theorem write_isolated_seq (s : Store) (k : Key) (v : Snap) (ws : List (Snap × 
     | none => simpa using hl
     | some s' => simpa using write_isolated s s' k v w.1 w.2 hl hw
 
+/-- **deleting one snapshot** removes exactly the group of that (cycle, node, label): it is gone, and every snapshot with a
+different name — also the other labels of the same (cycle, node) — still loads as it was -/
+theorem delete_exact (s s' : Store) (k : Key) (h : delete s k = some s') :
+    load s' k = none ∧ ∀ k', name k' ≠ name k → load s' k' = load s k' := by
+  unfold delete at h
+  split at h
+  · simp at h
+  · simp only [Option.some.injEq] at h
+    subst h
+    constructor
+    · unfold load
+      simp only [Option.map_eq_none_iff, List.find?_eq_none, List.mem_filter]
+      intro g hg
+      simpa using hg.2
+    · intro k' hk'
+      unfold load
+      congr 1
+      induction s.groups with
+      | nil => rfl
+      | cons g rest ih =>
+        by_cases hg : name g.1 = name k
+        · have h1 : (name g.1 != name k) = false := by simpa using hg
+          have h2 : (name g.1 == name k') = false := by
+            simpa using (fun hh : name g.1 = name k' => hk' (hh.symm.trans hg))
+          simp only [List.filter_cons, h1, Bool.false_eq_true, if_false, List.find?_cons, h2, ih]
+        · have h1 : (name g.1 != name k) = true := by simpa using hg
+          simp only [List.filter_cons, h1, if_true, List.find?_cons, ih]
+
 /-- closing does not touch the snapshots -/
 theorem close_keeps_snapshots (s : Store) (ok : Bool) : (close s ok).groups = s.groups := by
   unfold close; split <;> rfl
